@@ -47,3 +47,8 @@ namespace Gtree.Go
 /-- the indices of `for i := range xs` -/
 def indices {α : Type} (xs : List α) : List Int := (List.range xs.length).map Int.ofNat
 end Gtree.Go
+
+namespace Gtree.Go
+/-- `m[k] = struct{}{}` on a `map[string]struct{}`: the set as the list of its elements in insertion order -/
+def setInsert (s : List Bytes) (x : Bytes) : List Bytes := if s.contains x then s else s ++ [x]
+end Gtree.Go
